@@ -221,14 +221,14 @@ theorem absorb_newtypeVariant_ok (c : Code) (o : Options) (t t' : Tracer) (nm : 
   simp only [absorb, bind_ok]
   constructor
   · rintro ⟨⟨n, p, nl, vs, vt⟩, h1, h2⟩
-    simp only [bind_ok] at h2
+    simp only at h2
     obtain ⟨vt', h2, h3⟩ := h2
     cases h3
     obtain ⟨vs0, nm', h4, h5, h6⟩ := (ensure_union_variant_ok t vn idx n p nl vs vt).mp h1
     exact ⟨n, p, nl, vs0, vs, nm', vt, vt', h4, h5, h6, h2, rfl⟩
   · rintro ⟨n, p, nl, vs0, vs, nm', vt, vt', h4, h5, h6, h2, rfl⟩
     refine ⟨(n, p, nl, vs, vt), (ensure_union_variant_ok t vn idx n p nl vs vt).mpr ⟨vs0, nm', h4, h5, h6⟩, ?_⟩
-    simp only [bind_ok]
+    simp only
     exact ⟨vt', h2, rfl⟩
 
 end SaModel.Lemmas.C06
